@@ -85,6 +85,16 @@ var extra = []string{
 	"steps:\n  - type: script\n    command: z\n  - type: 7\n",
 	"steps:\n  - group: ~\n    steps: ~\n  - group: g2\n    steps:\n      - group: inner\n        steps: [wait, {command: c}]\n",
 	"a: &a {command: shared}\nsteps:\n  - *a\n  - <<: *a\n    label: l\n",
+	// anchor / alias / merge cycles: rejected or tolerated, never a hang or a crash
+	"steps:\n  - command: echo hello\n    <<: &loop [*loop]\n",
+	"steps:\n  - command: c\n    <<: &s [[*s], {label: l}]\n",
+	"base: &b\n  <<: *b\n  label: l\nsteps:\n  - command: c\n    <<: *b\n",
+	"x: &x [*y]\ny: &y [*x]\nsteps:\n  - command: c\n    <<: *x\n",
+	"steps:\n  - &st\n    command: c\n    env: {A: b}\n    <<: [*st, [*st]]\n",
+	"a: &a\n  b: *a\nsteps: [{command: c}]\n",
+	"steps: &s\n  - command: c\n  - group: g\n    steps: *s\n",
+	"env: &e {A: b, <<: [*e]}\nsteps:\n  - command: c\n    env: *e\n",
+	"steps:\n  - command: c\n    plugins:\n      - docker#v1: &cfg {image: x, <<: &q [*q, *cfg]}\n",
 	"steps:\n  - command: c\n    matrix: [a, b]\n    plugins:\n      - docker#v1: {image: x}\n      - cache\n    cache: p\n    env: {K: v}\n    signature: {algorithm: a, value: v, signed_fields: [command]}\n",
 }
 
@@ -151,19 +161,25 @@ func parseTimed(data []byte) outcome {
 	}
 }
 
-// expansion estimates the size of the document after alias expansion (capped).
-func expansion(n *yaml.Node, budget *int, depth int) {
-	if n == nil || *budget < 0 || depth > 200 {
-		*budget = -1
+// expansion estimates the size of the document after alias expansion (capped). A node
+// reached again on the current path (an anchor/alias cycle) is not descended into a second
+// time: cyclic documents are in scope - Parse must reject or tolerate them in bounded time.
+func expansion(n *yaml.Node, budget *int, path map[*yaml.Node]bool) {
+	if n == nil || *budget < 0 {
 		return
 	}
+	if path[n] {
+		return
+	}
+	path[n] = true
+	defer delete(path, n)
 	*budget--
 	if n.Kind == yaml.AliasNode {
-		expansion(n.Alias, budget, depth+1)
+		expansion(n.Alias, budget, path)
 		return
 	}
 	for _, c := range n.Content {
-		expansion(c, budget, depth+1)
+		expansion(c, budget, path)
 		if *budget < 0 {
 			return
 		}
@@ -256,7 +272,7 @@ func check(data []byte) (msg string, inScope bool) {
 	var node yaml.Node
 	if err := yaml.Unmarshal(data, &node); err == nil {
 		budget := 50000
-		expansion(&node, &budget, 0)
+		expansion(&node, &budget, map[*yaml.Node]bool{})
 		if budget < 0 {
 			return "", false // alias expansion beyond the stated bound
 		}
